@@ -109,6 +109,7 @@ pub enum Event {
         image: Arc<PngImage>,
         final_round: bool,
         optimize_alpha: bool,
+        deflater: crate::Deflaters,
     },
     /// the spawned job started running
     JobStart { eval: u64, nth: usize },
